@@ -33,8 +33,12 @@ FORMATS = ["xyz", "sdf", "pdb"]
 
 
 def correspond(ctx):
+    from . import _fchk
+
     for k in FORMATS:
         K.c03_flow(ctx, ADAPTERS[k], ctx.n(40, 400))
+    _fchk.c03_flow(ctx, ctx.n(60, 500))
+    _fchk.corr_shuffles(ctx)
 
 
 def search(ctx):
